@@ -25,6 +25,18 @@ CHECKS = {
    technique="TLA+ spec ReceiverLocks.tla (every lock/unlock/channel step; TLC: termination under weak fairness, result table, mutex never leaked; pinned Close refuted) plus call-level behaviours of Receiver.tla replayed on a real Receiver (with and without pubsub topic) under a watchdog",
    text="TLC explores all interleavings of the critical-section steps of Close (1-3 times), Direct, Next and UncacheCid for 2-3 threads and proves on the model that every call returns once a Close has returned, with the specified results and no leaked mutex; the call-level model (blocked Direct / Next, wake-up by Close, repeated Close) is enumerated exhaustively and each behaviour is executed on the real Receiver with every call under a 2 s watchdog, so a return path that leaves the receiver unusable shows as a hang at the next call; a subset runs with a libp2p host and topic and checks that the watcher goroutine exits.",
    note="Interleavings inside calls are decided on the model only; the code is bound at call granularity (all blocking points are API boundaries). At most one blocked sender / receiver."),
+ "C03": dict(level="model_checking", design="6/C03", engine="tlc+harness",
+   technique="TLA+ spec SignedHead.tla (symbolic signatures; Validate + signer comparison transcribed; full alteration space) checked by TLC; every state exported as a case and executed with real keys through head.Decode/Validate, Syncer.GetHead and Subscriber.SyncAdChain (exhaustive case-table conformance), plus byte alterations of the encoding",
+   text="TLC enumerates publisher x head x topic x expected peer x alteration (changed CID/topic, replaced key, foreign signature, re-signed by another identity, swapped key/signature between valid heads, empty or malformed key/signature) and checks that GetHead's rule accepts exactly the honest heads of the expected publisher and yields the signed CID; the model without the signer comparison is refuted. Each case is concretised for three key types (RSA sampled) and run through the real decoder, client and subscriber against an HTTP server returning the crafted head, observing result, latest-synced value and requests after /head; a real Publisher's served heads are verified for all key types.",
+   note="Unforgeability assumed (symbolic). Byte-level alterations are sampled in quick (every 7th byte, two masks), exhaustive in thorough."),
+ "C05": dict(level="model_checking", design="6/C05", engine="tlc+harness",
+   technique="TLA+ spec AdSignature.tla (symbolic envelopes, Sign/SignWithExtendedProviders, single-value and envelope mutations, VerifySignature transcribed) checked by TLC against the declarative rule; every state exported as a case and executed with real keys, both codecs (exhaustive case-table conformance) plus envelope byte-alteration sweeps",
+   text="TLC enumerates ad shape x signer x key assigned to each extended-provider entry x single mutation and checks Verify(Mutate(Sign)) against the declarative outcome (accepted iff unchanged, main provider listed, every entry signed by the identity it names); the pinned rule is refuted by TLC. Every case runs on the real Sign/SignWithExtendedProviders/VerifySignature with Ed25519, secp256k1, ECDSA (RSA sampled) keys, through no codec, DAG-JSON and DAG-CBOR round trips; sampled honest ads get every byte of key, payload and signature of every envelope altered.",
+   note="Unforgeability assumed; neighbouring-value shifts are outside the claim; lists bounded (<=2 addresses, <=1 (quick) / 2 (thorough) extended providers)."),
+ "C18": dict(level="model_checking", design="6/C18", engine="tlc+harness",
+   technique="TLA+ spec SignedRequest.tla (symbolic envelopes with domain and payload type; readers transcribed) checked by TLC; every state exported as a case and executed with the real constructors/readers for 4 key types (exhaustive case-table conformance) plus byte alterations of sealed requests",
+   text="TLC enumerates made-for kind x read-as kind x named provider x signing key x alteration and checks that the readers accept exactly unaltered same-domain requests signed by the named provider, returning the sealed fields; the pinned ingest reader is refuted. Every case is built with MakeIngestRequest / MakeRegisterRequest and envelope-field substitution and read with ReadIngestRequest / ReadRegisterRequest for Ed25519, secp256k1, ECDSA and RSA keys; every n-th byte of honest sealed requests is altered.",
+   note="Unforgeability assumed (symbolic)."),
 }
 PENDING = {
 }
